@@ -16,7 +16,7 @@ from .. import specs
 
 name = 'out'
 RAISE_ORACLE = 'I14.raise'
-MODELS = ['m', 'm_b', 'mm', 'model one']
+MODELS = ['m', 'm_b', 'mm', 'model one', 'logit.v2']
 EXTS = ['html', 'pickle', 'tex', 'F12']
 
 
